@@ -575,6 +575,10 @@ def run(names, all_props=False, nworkers=4):
         for pid in targets:
             t0 = time.time()
             rc, out = w.check(pid)
+            if rc == 1 and os.environ.get("FCV_HARVEST") == "1":
+                import corpus
+                with lock:
+                    corpus.harvest(out, "mutant %s" % name)
             row[pid] = (rc, round(time.time() - t0, 1))
             if rc not in (0, 1):
                 with lock:
